@@ -681,7 +681,7 @@ type sigRule struct {
 }
 
 func run(c *core.Ctx) {
-	lg.EnableChecks(c)
+	lg.EnableChecks(c).Revalidations = 1 // the monitor repeats every validation itself as well
 	co := &collector{m: map[string]*finding{}}
 	rules := map[lg.Era][]sigRule{}
 	for _, e := range lg.AllEras {
